@@ -438,6 +438,9 @@ def gen_c12(tier, rng):
             cuts = cuts + [len(data)]
             sizes = [b - a for a, b in zip([0] + cuts[:-1], cuts)]
         case.schedule = [(1, s) for s in sizes if s > 0]
+        if dgram and k % 4 == 2:
+            # a zero-length datagram is a legal UDP event
+            case.schedule.insert(rng.randrange(len(case.schedule) + 1), (1, 0))
         probe = build_frames(kind, [(cfg["hosted"][0], 4242, dm.pdu_read(3, 0, 3))])[0]
         if fe == "syncSerial":
             per = {"rtu": 8, "ascii": 17, "bin": 10}[kind]
